@@ -174,12 +174,16 @@ def stage(prop, spec, scratch=None):
     with open(lib) as f:
         t = f.read()
     # the Vec::push stand-in (env/mod.rs) must be generic over the allocator parameter
-    t = "#![cfg_attr(kani, feature(allocator_api))]\n" + t
+    t = "#![cfg_attr(kani, feature(allocator_api))]\n#![cfg_attr(kani, recursion_limit = \"512\")]\n" + t
     t += (
         "\n// ---- injected by /verif/tools/vlib.py (scratch copy only) ----\n"
         '#[cfg(any(kani, verif_replay))]\n#[path = "%s/shim/vk.rs"]\n#[macro_use]\npub(crate) mod verif_vk;\n'
         '#[cfg(kani)]\n#[path = "%s/shim/collections.rs"]\npub(crate) mod verif_shim;\n'
         '#[cfg(any(kani, verif_replay))]\n#[path = "%s/env/mod.rs"]\npub(crate) mod verif_env;\n'
+        '#[allow(unused_imports)]\npub(crate) mod verif_coll {\n'
+        '  #[cfg(kani)]\n  pub use crate::verif_shim::{btree_map, hash_map, BTreeMap, BTreeSet, HashMap, HashSet};\n'
+        '  #[cfg(kani)]\n  pub use std::collections::{BinaryHeap, LinkedList, VecDeque};\n'
+        '  #[cfg(not(kani))]\n  pub use std::collections::*;\n}\n'
         % (VERIF, VERIF, VERIF)
     )
     for hname in spec.get("inject", {}).get("src/lib.rs", []):
@@ -212,8 +216,12 @@ def stage(prop, spec, scratch=None):
             continue
         with open(p) as f:
             t = f.read()
+        # every mention of std::collections (use lines AND fully qualified paths, which an
+        # edited working tree may introduce) is routed through crate::verif_coll, which is the
+        # shim under cfg(kani) and std::collections otherwise
         t, n0 = rewrite_grouped_std_use(t)
-        t, n1 = rewrite_collections_imports(t)
+        n1 = t.count("std::collections::")
+        t = t.replace("::std::collections::", "crate::verif_coll::").replace("std::collections::", "crate::verif_coll::")
         nre += n1
         with open(p, "w") as f:
             f.write(t)
